@@ -1,7 +1,7 @@
 (* CanonRoundtrip.v — C01 in full: every (layout, value) pair of the decidable class `canon` serialises
    to the bytes `canon` returns, and those bytes read back as exactly that value with nothing left. *)
 From Zvt Require Import Base Length LengthProps Cp437 Encoding EncodingProps Codec CodecTotal CodecFrame CodecRoundtrip CodecTags CodecFields CodecCanon CanonClass.
-From Coq Require Import ZifyBool ZifyNat ZifyN.
+From Coq Require Import ZifyBool ZifyNat ZifyN Permutation.
 Ltac Zify.zify_post_hook ::= Z.div_mod_to_equations.
 Open Scope N_scope.
 
@@ -185,37 +185,6 @@ Proof.
   induction xs as [|x xs IH]; [reflexivity|]. cbn [canon_elems]. rewrite <- IH. reflexivity.
 Qed.
 
-Fixpoint canon_fields (tail : option bytes) (tagged_allowed : bool) (fs : list field) (vs : list value) (after_tagged : bool)
-  : option bytes :=
-  match fs, vs with
-  | [], [] => Some []
-  | Fld _ tg l' e' t' :: fr, x :: vr =>
-      match tg with
-      | None =>
-          if after_tagged then None else
-          match canon_fields tail tagged_allowed fr vr false with
-          | Some rest =>
-              match canon l' e' t' None x (match tail with Some tl => Some (rest ++ tl) | None => None end) with
-              | Some g => Some (g ++ rest)
-              | None => None
-              end
-          | None => None
-          end
-      | Some tn =>
-          if tagged_allowed && tag_repr_b tn then
-            match canon_fields tail tagged_allowed fr vr true with
-            | Some rest =>
-                match canon l' e' t' (Some tn) x None with
-                | Some g => Some (g ++ rest)
-                | None => None
-                end
-            | None => None
-            end
-          else None
-      end
-  | _, _ => None
-  end.
-
 Definition struct_tail (ls : lenstyle) (tag : option N) (ctx : option bytes) : option bytes :=
   match ls with LEmpty => match tag with None => ctx | Some _ => None end | _ => Some [] end.
 Definition tagged_allowed (tail : option bytes) : bool := match tail with Some [] => true | _ => false end.
@@ -308,8 +277,9 @@ Lemma canon_fields_pos : forall fs vs tail allowed pl,
     forallb (fun f => negb (untagged_field f)) (map (fun s : tslot => fst (fst s)) ts) = true /\
     (ts <> [] -> allowed = true) /\
     enc_fields fs vs = Ok pl /\ slots_ok ts /\
-    (forall fuel tl, (forall f, In f fs -> (depth (f_ty f) <= fuel)%nat) -> fits tail tl ->
-       pos_ok (dec fuel) ps (tbytes ts ++ tl)).
+    (forall fuel rest, (forall f, In f fs -> (depth (f_ty f) <= fuel)%nat) ->
+       (match tail with Some tl => rest = tbytes ts ++ tl | None => True end) ->
+       pos_ok (dec fuel) ps rest).
 Proof.
   induction fs as [|[nm tg l' e' t'] fr IH]; intros vs tail allowed pl Hs H.
   - destruct vs; [|discriminate]. injection H as <-. exists [], [].
@@ -337,11 +307,10 @@ Proof.
       split; [cbn [forallb]; rewrite Hup; reflexivity|].
       split; [exact Htg|]. split; [exact Hal|].
       split; [cbn [enc_fields]; rewrite Hx, Henc; reflexivity|]. split; [exact Hok|].
-      intros fuel tl Hdep Hfit. cbn [pos_ok f_ls f_enc f_ty]. split.
-      * replace (concat (map snd ps) ++ tbytes ts ++ tl) with (rest ++ tl) by (rewrite Hpl, <- app_assoc; reflexivity).
-        apply Hd.
+      intros fuel rst Hdep Hfit. cbn [pos_ok f_ls f_enc f_ty]. split.
+      * apply Hd.
         -- apply (Hdep (Fld nm None l' e' t')). left. reflexivity.
-        -- destruct tail as [tl0|]; cbn [fits] in *; [subst tl; reflexivity|exact I].
+        -- destruct tail as [tl0|]; cbn [fits]; [|exact I]. rewrite Hfit, Hpl, <- app_assoc. reflexivity.
         -- intros _. exact I.
         -- left. reflexivity.
       * apply Hpos; [|exact Hfit]. intros f Hf. apply Hdep. right. exact Hf.
@@ -382,7 +351,7 @@ Proof.
       rewrite Hfs. apply find_tagged_untagged. exact Hup.
     + assert (Ha : tagged_allowed tail = true) by (apply Hal; discriminate).
       unfold tagged_allowed in Ha. destruct tail as [[|b tl0]|]; try discriminate. cbn [fits] in Hfit. subst tl. exact I.
-  - apply Hpos; [exact Hdep|exact Hfit].
+  - apply Hpos; [exact Hdep|]. destruct tail as [tl0|]; [cbn [fits] in Hfit; subst tl; reflexivity|exact I].
   - intros k f v g Hn. apply nth_error_In in Hn. destruct (Hpres f v g Hn) as [nm [t [ls [e [ty [Ef [Hst Hd]]]]]]].
     exists nm, t, ls, e, ty. split; [exact Ef|]. split; [exact Hst|]. intros r Hr. apply Hd; [|exact Hr].
     subst f. apply (Hdep (Fld nm (Some t) ls e ty)). rewrite Hfs. apply in_or_app. right.
@@ -688,3 +657,64 @@ Lemma class_opt_some ls e u tag x ctx g : canon ls e u tag x ctx = Some g -> g <
 Proof. intros H Hne. cbn [canon]. rewrite H. destruct g; [congruence|reflexivity]. Qed.
 Lemma class_opt_none_tagged ls e u tg ctx : canon ls e (TOpt u) (Some tg) VNone ctx = Some [].
 Proof. reflexivity. Qed.
+
+(* ================================================================== C13 for the class: any order of the tagged groups *)
+
+Theorem canon_anyorder_sound fs v pl : canon_anyorder fs v = Some pl ->
+  exists vs (pos : bytes) (gs : list group), v = VRec vs /\ pl = pos ++ gbytes gs /\ enc_struct fs v = Ok pl /\
+    forall gs', Permutation gs gs' -> forall fuel, (depth_fields fs <= S fuel)%nat ->
+      dec_struct_with (dec fuel) fs (pos ++ gbytes gs') = Ok (v, []).
+Proof.
+  unfold canon_anyorder. destruct v as [| | | | | | |vs]; try discriminate.
+  destruct (nodup_b (tags_of fs)) eqn:End; [|discriminate]. intros H.
+  destruct (canon_fields_pos fs vs None true pl (fun f _ => canon_sound _ _ (le_n _)) H)
+    as [ps [ts [Hfs [Hvs [Hpl [Hup [Htg [Hal [Henc [[Hpres Habs] Hpos]]]]]]]]]].
+  exists vs, (concat (map snd ps)), (groups_from (length (map (fun x : field * value * bytes => fst (fst x)) ps)) ts).
+  split; [reflexivity|]. split; [rewrite gbytes_groups_from; exact Hpl|].
+  split; [unfold enc_struct; rewrite enc_struct_unfold, Henc; reflexivity|].
+  intros gs' HP fuel Hf. pose proof (fields_depth fs fuel Hf) as Hdep.
+  pose proof (dec_struct_slots_perm (dec fuel) ps ts [] gs') as T. cbv zeta in T.
+  rewrite <- Hfs, <- Hvs, !app_nil_r in T. apply T; clear T.
+  - exact Hup.
+  - exact Htg.
+  - apply nodup_b_ok in End. rewrite Hfs, tags_of_app, (tags_of_untagged _ Hup) in End. exact End.
+  - unfold tail_ok. cbn. exact I.
+  - exact HP.
+  - apply Hpos; [exact Hdep|exact I].
+  - intros k f v g Hn. apply nth_error_In in Hn. destruct (Hpres f v g Hn) as [nm [t [ls [e [ty [Ef [Hst Hd]]]]]]].
+    exists nm, t, ls, e, ty. split; [exact Ef|]. split; [exact Hst|]. intros r Hr. apply Hd; [|exact Hr].
+    subst f. apply (Hdep (Fld nm (Some t) ls e ty)). rewrite Hfs. apply in_or_app. right.
+    apply in_map_iff. exists (Fld nm (Some t) ls e ty, v, Some g). split; [reflexivity|exact Hn].
+  - exact Habs.
+Qed.
+
+Lemma gbytes_perm_len gs gs' : Permutation gs gs' -> blen (gbytes gs) = blen (gbytes gs').
+Proof.
+  intros HP. induction HP as [|g l l' HP IH|a b l|l1 l2 l3 H1 IH1 H2 IH2]; [reflexivity| | |congruence].
+  - unfold gbytes in *. cbn [map concat]. rewrite !blen_app, IH. reflexivity.
+  - unfold gbytes. cbn [map concat]. rewrite !blen_app. lia.
+Qed.
+
+(* the same inside the APDU of a command: class, instruction and length are those of the in-order encoding *)
+Theorem canon_cmd_anyorder c v pl b : canon_anyorder (c_fields c) v = Some pl ->
+  blen pl <= 65535 -> cf c < 65536 -> framed_enc LAdpu true (Some (cf c)) pl = Ok b ->
+  enc_cmd c v = Ok b /\
+  exists (pos : bytes) (gs : list group), pl = pos ++ gbytes gs /\
+    forall gs', Permutation gs gs' ->
+      exists b', framed_enc LAdpu true (Some (cf c)) (pos ++ gbytes gs') = Ok b' /\ blen b' = blen b /\
+        forall fuel r, (depth_fields (c_fields c) <= S fuel)%nat -> dec_cmd fuel c (b' ++ r) = Ok (v, r).
+Proof.
+  intros H Hl Hcf Hb. destruct (canon_anyorder_sound _ v pl H) as [vs [pos [gs [-> [Hpl [Henc Hdec]]]]]].
+  split; [unfold enc_cmd; rewrite Henc; cbn [bind]; exact Hb|].
+  exists pos, gs. split; [exact Hpl|]. intros gs' HP.
+  assert (Hlen : blen (pos ++ gbytes gs') = blen pl) by (rewrite Hpl, !blen_app, (gbytes_perm_len gs gs' HP); reflexivity).
+  assert (E : exists b', framed_enc LAdpu true (Some (cf c)) (pos ++ gbytes gs') = Ok b').
+  { unfold framed_enc, len_ser. destruct (_ <? 255); eexists; reflexivity. }
+  destruct E as [b' Hb']. exists b'. split; [exact Hb'|]. split.
+  - unfold framed_enc in Hb, Hb'. rewrite Hlen in Hb'. destruct (len_ser LAdpu (blen pl)) as [l| | |]; cbn [bind] in *; try discriminate.
+    injection Hb as <-. injection Hb' as <-. rewrite !blen_cons, (blen_app l (pos ++ gbytes gs')), (blen_app l pl), Hlen. reflexivity.
+  - intros fuel r Hf. unfold dec_cmd, dec_struct.
+    destruct (framed_roundtrip LAdpu true (Some (cf c)) (dec_struct_with (dec fuel) (c_fields c)) (pos ++ gbytes gs') (VRec vs) r eq_refl) as [b2 [Hb2 Hr]];
+      [cbn [len_fits]; lia|cbn [tag_ok]; lia|apply Hdec; assumption|].
+    rewrite Hb' in Hb2. injection Hb2 as <-. exact Hr.
+Qed.
